@@ -418,3 +418,62 @@ package graphql
 //@   props C11 C10
 //@   nosafety
 //@   at return: assert calls("AddImplementation") == 1 || calls("typeMapReducer") == 0 || err != nil
+
+// ---- plan cache (C06 transparency kernel, C07 lock discipline, C12 key composition) ------------
+
+// assumed contracts of container/list (ghost length = the unexported field len)
+//@ extern func container/list::List.PushFront
+//@   assigns class:list.
+//@   ensures result != nil && result.Value == v && l.len == old(l.len) + 1
+//@ extern func container/list::List.MoveToFront
+//@   assigns class:list.Element, class:list.List.root
+//@   ensures l.len == old(l.len)
+//@ extern func container/list::List.Remove
+//@   assigns class:list.
+//@   ensures l.len == old(l.len) - 1 || l.len == old(l.len)
+//@   ensures old(l.len) > 0 ==> l.len >= 0
+//@ extern func container/list::List.Back
+//@   pure
+//@   ensures l.len > 0 ==> result != nil
+//@   ensures l.len == 0 ==> result == nil
+//@ extern func container/list::List.Len
+//@   pure
+//@   ensures result == l.len
+//@ extern func container/list::New
+//@   assigns nothing
+//@   ensures result != nil && fresh(result) && result.len == 0
+
+//@ func PlanCache.lookup
+//@   props C06 C07
+//@   nosafety
+//@   requires c != nil && !held(&c.mu)
+//@   ensures !held(&c.mu)
+//@   ensures !old(has(c.entries, key)) ==> !result1
+//@   ensures result1 ==> old(has(c.entries, key)) && old(as(c.entries[key].Value, "*graphql.planCacheItem").e.schema) == schema
+//@   ensures result1 ==> result0 == old(as(c.entries[key].Value, "*graphql.planCacheItem").e.result)
+//@   ensures old(has(c.entries, key)) && old(as(c.entries[key].Value, "*graphql.planCacheItem").e.schema) != schema ==> !result1 && !has(c.entries, key)
+
+//@ func PlanCache.store
+//@   props C06 C07
+//@   nosafety
+//@   requires c != nil && !held(&c.mu) && c.entries != nil && c.order != nil && c.order.len >= 0
+//@   ensures !held(&c.mu)
+//@   ensures has(c.entries, key) && as(c.entries[key].Value, "*graphql.planCacheItem").e.schema == schema && as(c.entries[key].Value, "*graphql.planCacheItem").e.result == pr
+//@   ensures old(c.order.len) <= c.opts.MaxEntries && c.opts.MaxEntries >= 0 ==> c.order.len <= c.opts.MaxEntries
+//@   at call Remove: assert calls("Remove") == calls("delete")
+//@   loop 1 invariant held(&c.mu) && c.order.len >= 0 && calls("Remove") == calls("delete")
+
+//@ func PlanCache.Reset
+//@   props C06 C07
+//@   nosafety
+//@   requires c == nil || !held(&c.mu)
+//@   ensures c == nil || !held(&c.mu)
+//@   ensures c != nil ==> c.order.len == 0
+
+//@ func PlanCache.Get
+//@   props C06 C12
+//@   nosafety
+//@   at return: assert c == nil ==> calls("lookup") == 0 && calls("store") == 0
+//@   at[C06,C12] call lookup: assert arg1 == schema && len(arg2) >= len(operationName) + 1 && (forall i in 0..len(operationName): arg2[i] == operationName[i]) && arg2[len(operationName)] == 0
+//@   at[C06,C12] call store: assert arg1 == schema && len(arg2) >= len(operationName) + 1 && (forall i in 0..len(operationName): arg2[i] == operationName[i]) && arg2[len(operationName)] == 0
+//@   at[C06] return: assert calls("normalizeDocument") == 1 && calls("lookup") == 1 && calls("store") == 0 && normErr == nil ==> result.SynthArgs == synthArgs
